@@ -211,6 +211,19 @@ NegAxisCases(maxArgs) ==
               : sh \in Shapes, ax \in (0 - 2)..(0 - 1)}
   \cup UNION {IF 0 - ax <= Len(sh) THEN {C("taken", "take", <<a>>, ax, is, <<>>) : <<a, is>> \in Small(sh) \X IdxSeqs(sh[Len(sh) + ax + 1])} ELSE {}
               : sh \in Shapes, ax \in (0 - 2)..(0 - 1)}
+\* Arguments of MIXED RANK (0-d, 1-d, 2-d; every shape a suffix of the largest, so NumPy broadcasts them), in every order.
+\* The library defines: stack (array-API: "broadcastable to the same shape"; xarray: concat broadcasts by dimension name),
+\* the two-argument arithmetic (both), and on the xarray backend the multi-argument reductions (they stack first).
+\* Not defined, hence not in the domain: array-API multi-argument reductions (np.asarray of ragged arguments raises) and
+\* concat of arrays of different rank (NumPy has no value).  Reference: NumPy on the broadcast arguments.
+MixFamilies == {<<[shape |-> <<>>, data |-> <<3>>], [shape |-> <<2>>, data |-> <<0 - 1, 2>>], [shape |-> <<2, 2>>, data |-> <<1, 0, 0 - 2, 3>>]>>,
+                <<[shape |-> <<>>, data |-> <<0 - 2>>], [shape |-> <<3>>, data |-> <<2, 0 - 2, 1>>], [shape |-> <<2, 3>>, data |-> <<0, 1, 3, 0 - 1, 2, 0 - 2>>]>>}
+MixLists(n) == UNION {{t \in [1..n -> {F[i] : i \in 1..3}] : \E i, j \in 1..n : Len(t[i].shape) # Len(t[j].shape)} : F \in MixFamilies}
+MaxRank(t) == CHOOSE r \in 0..2 : (\E i \in DOMAIN t : Len(t[i].shape) = r) /\ (\A i \in DOMAIN t : Len(t[i].shape) <= r)
+MixedRankCases(top) ==
+       UNION {{C("bstack", "stack", t, ax, <<>>, <<>>) : ax \in (0 - (MaxRank(t) + 1))..MaxRank(t)} : t \in UNION {MixLists(n) : n \in 2..top}}
+  \cup {C("bmulti", f, t, 0, <<>>, <<>>) : <<f, t>> \in {"sum", "prod", "min", "max", "mean"} \X UNION {MixLists(n) : n \in 2..top}}
+  \cup {C("bbin", op, t, 0, <<>>, <<>>) : <<op, t>> \in {"add", "subtract", "multiply"} \X MixLists(2)}
 NarrowCases(top) ==          \* (a parameter so that TLC does not evaluate it when it starts)
        {CD("multi", f, t, 0, <<>>, <<>>, "bool") : <<f, t>> \in UNION {NarrowOps \X Tuples(BoolPool(sh), n) : <<sh, n>> \in BoolShapes \X (2..top)}}
   \cup {CD("multi", f, t, 0, <<>>, <<>>, "i1") : <<f, t>> \in UNION {NarrowOps \X Tuples(I1Pool(sh), n) : <<sh, n>> \in I1Shapes \X (2..top)}}
@@ -248,6 +261,7 @@ Cases(maxArgs) ==
               : sh \in {<<1>>, <<2>>, <<2, 2>>}, n \in 3..maxArgs, parts \in UNION {Comps(m) : m \in 3..maxArgs}}
   \cup NarrowCases(3)
   \cup NegAxisCases(maxArgs)
+  \cup MixedRankCases(3)
 
 \* TLC evaluates every constant definition of a module when it starts, so each pass is guarded by IOEnv.PASS
 Generate == IOEnv.PASS = "generate" => (LET cs == SetToSeq(Cases(MaxArgs)) IN JsonSerialize(IOEnv.CASES_FILE, [i \in 1..Len(cs) |-> cs[i]]))
@@ -255,6 +269,11 @@ Generate == IOEnv.PASS = "generate" => (LET cs == SetToSeq(Cases(MaxArgs)) IN Js
 \* ------------------------------------------------------------------ post-condition
 AsSeq(x) == [i \in DOMAIN x |-> x[i]]
 ArgsOf(c) == [i \in DOMAIN c.args |-> IntArr(AsSeq(c.args[i].shape), AsSeq(c.args[i].data))]
+\* broadcasting of trailing-aligned shapes
+BShapeOf(args) == args[CHOOSE i \in DOMAIN args : \A j \in DOMAIN args : Len(args[j].shape) <= Len(args[i].shape)].shape
+BroadcastTo(a, sh) == MkArr(sh, LAMBDA idx : At(a, SubSeq(idx, Len(sh) - Len(a.shape) + 1, Len(sh))))
+BArgs(args) == [i \in DOMAIN args |-> BroadcastTo(args[i], BShapeOf(args))]
+BKinds == {"bstack", "bmulti", "bbin"}
 NormAxis(ax, rank) == IF ax < 0 THEN ax + rank ELSE ax            \* NumPy: a negative axis counts from the end
 Spec(c) == LET a == ArgsOf(c)
                ax == NormAxis(c.axis, Len(a[1].shape) + (IF c.k = "stack" THEN 1 ELSE 0)) IN
@@ -267,15 +286,38 @@ Spec(c) == LET a == ArgsOf(c)
     [] c.k = "taken" -> TakeSeq(a[1], AsSeq(c.idx), ax)
     [] c.k = "bin" -> IF c.dt = "i1" THEN WrapArr8(Binary(c.op, a[1], a[2])) ELSE Binary(c.op, a[1], a[2])
     [] c.k = "batched" -> Apply(c.op, a, c.axis)
+    [] c.k = "bstack" -> Stack(BArgs(a), NormAxis(c.axis, Len(BShapeOf(a)) + 1))
+    [] c.k = "bmulti" -> MultiN(c.op, BArgs(a))
+    [] c.k = "bbin" -> Binary(c.op, BArgs(a)[1], BArgs(a)[2])
+\* xarray identifies dimensions by NAME (the harness names the dimensions of an argument d<k> by their position in the
+\* broadcast shape): for mixed-rank arguments the result is compared by name - same set of dimensions, the new
+\* dimension of stack at the position the axis asks for, values equal after transposing to NumPy's order.
+WantDims(c) == LET a == ArgsOf(c)
+                   base == [i \in 1..Len(BShapeOf(a)) |-> "d" \o ToString(i - 1)]
+               IN IF c.k = "bstack" THEN InsAt(base, NormAxis(c.axis, Len(base) + 1) + 1, "new") ELSE base
+TransposeTo(got, gd, wd) ==
+  LET perm == [i \in DOMAIN wd |-> CHOOSE j \in DOMAIN gd : gd[j] = wd[i]]
+  IN MkArr([i \in DOMAIN wd |-> got.shape[perm[i]]],
+           LAMBDA idx : At(got, [j \in DOMAIN gd |-> idx[CHOOSE i \in DOMAIN perm : perm[i] = j]]))
 ImplArr(r) == [shape |-> AsSeq(r.shape), data |-> [i \in DOMAIN r.data |-> Q(r.data[i][1], r.data[i][2])]]
 \* r = [np |-> res, xr |-> res], res = [shape, data] or [error] or [skip]; marked = names carrying the marker
 PostOne(c, res, be, marked) ==
   LET n(what) == {be \o ":" \o c.op \o ":" \o c.k \o (IF c.dt = "f8" THEN "" ELSE "[" \o c.dt \o "]") \o ":" \o what}
       want == Spec(c)
   IN IF c.k = "batched" /\ c.op \notin marked THEN {}          \* nothing is promised for unmarked functions
+     ELSE IF c.k = "bmulti" /\ be = "np" THEN {}                 \* not defined by the array-API backend (ragged np.asarray)
      ELSE IF "skip" \in DOMAIN res THEN {}                      \* the backend's API has no such call (axis given by name)
      ELSE IF HasUndef(want) THEN n("outside_model_range")      \* cannot happen on this domain; never skip silently
      ELSE IF "error" \in DOMAIN res THEN n("raised")
+     ELSE IF be = "xr" /\ c.k \in BKinds
+     THEN LET gd == AsSeq(res.dims)
+              wd == WantDims(c) IN
+          IF Len(gd) # Len(wd) \/ {gd[i] : i \in DOMAIN gd} # {wd[i] : i \in DOMAIN wd} THEN n("dims_differ")
+          ELSE IF c.k = "bstack" /\ (CHOOSE j \in DOMAIN gd : gd[j] = "new") # (CHOOSE j \in DOMAIN wd : wd[j] = "new")
+          THEN n("new_dimension_misplaced")
+          ELSE LET got == TransposeTo(ImplArr(res), gd, wd) IN
+               IF got.shape # want.shape THEN n("shape_differs")
+               ELSE IF got.data # want.data THEN n("value_differs") ELSE {}
      ELSE LET got == ImplArr(res) IN
           IF got.shape # want.shape THEN n("shape_differs")
           ELSE IF got.data # want.data THEN n("value_differs") ELSE {}
